@@ -131,7 +131,13 @@ def fs_isfile(p):
     return _osp.isfile(p)
 
 
-@_native('(str, str) -> str', _app_builder('path_join', ['String', 'String'], 'String'))
+def _path_join_builder(ts):
+    from pyvc import models
+    models.path_join_axiom(_smt.CTX)
+    return _smt.CTX.app('path_join', *ts)
+
+
+@_native('(str, str) -> str', _path_join_builder)
 def path_join(a, b):
     return _osp.join(a, b)
 
